@@ -141,9 +141,16 @@ def selectArm (a : Ast) (s : Val) : List Arm → Option Arm
   | [] => none
   | arm :: rest => if patMatches a arm.pat s then some arm else selectArm a s rest
 
-def selectEnum (a : Ast) (s : Val) : List (String × String) → Option String
+/-- an enum decoder arm `value => Self::member`: a numeric declared value is an integer literal pattern;
+    a value that names a constant (finding K4) is an identifier pattern -/
+def enumArmMatches (a : Ast) (vv : VariantValue) (s : Val) : Bool :=
+  match vv with
+  | .numeric n => (match scrutInt s with | some i => i == n | none => false)
+  | .str t => litMatches a t s
+
+def selectEnum (a : Ast) (s : Val) : List (VariantValue × String) → Option String
   | [] => none
-  | (p, m) :: rest => if litMatches a p s then some m else selectEnum a s rest
+  | (p, m) :: rest => if enumArmMatches a p s then some m else selectEnum a s rest
 
 def fieldNameOf : StructFieldDec → String
   | .plain n _ => safeName n
